@@ -135,12 +135,13 @@ type c15Case struct {
 	Status2  int  // second, superfluous WriteHeader
 	Trailer  bool // the origin announces and sends a trailer
 	TrEarly  bool // ... and sets its value right after WriteHeader, before the first write
+	After    bool // header changes and a WriteHeader(500) after the body (implicit status)
 	Empty    bool // zero-length first write
 	Late     bool // header map changed after WriteHeader
 }
 
 func (c c15Case) String() string {
-	return fmt.Sprintf("pos=%s level=%d min=%d AE=%q type=%q size=%d payload=%s status=%d declare=%v %s writes=%d flushmid=%v interim=%d abort=%v flushone=%v status2=%d trailer=%v%s emptywrite=%v late-header=%v", c.Pos, c.Level, c.Min, c.AE, c.CType, c.Size, c.Payload, c.Status, c.Declare, c.Method, c.Writes, c.FlushMid, c.Interim, c.Abort, c.FlushOne, c.Status2, c.Trailer, map[bool]string{true: "(early)"}[c.TrEarly], c.Empty, c.Late)
+	return fmt.Sprintf("pos=%s level=%d min=%d AE=%q type=%q size=%d payload=%s status=%d declare=%v %s writes=%d flushmid=%v interim=%d abort=%v flushone=%v status2=%d trailer=%v%s emptywrite=%v late-header=%v%s", c.Pos, c.Level, c.Min, c.AE, c.CType, c.Size, c.Payload, c.Status, c.Declare, c.Method, c.Writes, c.FlushMid, c.Interim, c.Abort, c.FlushOne, c.Status2, c.Trailer, map[bool]string{true: "(early)"}[c.TrEarly], c.Empty, c.Late, map[bool]string{true: " changes-after-the-body"}[c.After])
 }
 
 // origin returns the handler program and the entity the origin serves (body as the origin
@@ -187,7 +188,7 @@ func (c c15Case) origin() (*hprog, []byte, bool) {
 		p.FlushAfter = 1
 	}
 	p.Status2 = c.Status2
-	p.Trailer, p.TrailerEarly, p.EmptyWrite, p.LateHeader = c.Trailer, c.TrEarly, c.Empty, c.Late
+	p.Trailer, p.TrailerEarly, p.EmptyWrite, p.LateHeader, p.AfterBody = c.Trailer, c.TrEarly, c.Empty, c.Late, c.After
 	return p, plain, pre
 }
 
@@ -479,6 +480,15 @@ func c15Cases(th bool) []c15Case {
 		for _, st := range []int{200, 404} {
 			for _, ae := range []string{"gzip", "-"} {
 				out = append(out, c15Case{Pos: "gzip", Level: 5, Min: 64, AE: ae, CType: "text/html", Size: sz, Payload: "text", Status: st, Method: "GET", Writes: 1, Late: true})
+			}
+		}
+	}
+	// header map changed and WriteHeader(500) called after the body, the status left implicit:
+	// the response is what stood when the first byte was written
+	for _, sz := range []int{10, 70, 5000} {
+		for _, ae := range []string{"gzip", "-"} {
+			for _, w := range []int{1, 2} {
+				out = append(out, c15Case{Pos: "gzip", Level: 5, Min: 64, AE: ae, CType: "text/html", Size: sz, Payload: "text", Status: 0, Method: "GET", Writes: w, After: true})
 			}
 		}
 	}
